@@ -18,7 +18,8 @@ func init() {
 			"(R) the rewind refuses exactly when the retained prefix may be incomplete (truth table of writeHead vs len(buf), offset bounds, whence) and the buffer size is a positive constant; " +
 			"(X) the replay state is only touched under its mutex, each attempt reads through a handle created by that attempt's own rewind, and a stale handle cannot reach the source (equality truth table on the generation); " +
 			"(E) a failed upload unblocks everybody: deferred pipe closes in both goroutines, CloseWithError on serialisation failure, error channels sized for their senders and closed, Close() drains both, the publication of the response is a select next to the request context. " +
-			"Not decided: the byte content of an attempt for a given fault offset inside net/http.Transport.",
+			"Not decided: the byte content of an attempt for a given fault offset inside net/http.Transport. " +
+			"(B) offset agreement inside the replay buffer's Read: with k bytes replayed and n bytes read from the source into p[k:], the retained bytes are p[k:k+n] appended at writeHead, writeHead advances by the retained count and k+n is reported — evaluated for k=3,n=5 and k=0,n=5 through nested slices.",
 		Assumptions: []string{
 			"net/http.Transport reads Request.Body only through its Read method; io.Pipe delivers each write to exactly one reader",
 			"a reader goroutine superseded by a retry is eventually released by the next pipe write or close",
